@@ -6,7 +6,7 @@ every trace."""
 import runner_common as rc
 
 LEVEL = "proof"
-OPTS = {"p_tight_deadline": 0.7, "p_handler": 0.1, "p_abort": 0.2}
+OPTS = {"entries": rc.ENTRIES_NO_BREAKER, "p_tight_deadline": 0.7, "p_handler": 0.1, "p_abort": 0.2}
 
 
 def run(chk):
